@@ -69,6 +69,14 @@ func c09workloads() []c09wl {
 		{"nested-child", "global (TICK, CALLP)\nCALLP(func() {\n  return CALLP(func() {\n    for {\n      TICK()\n    }\n  })\n})\nreturn 1", false, 50000, []string{"invoke.pre_check", "invoke.pre_child_run", "pool.acquire.registered", "child.run.enter", "child.run.ready"}, false},
 		{"sleep", "global TICK\ntime := import(\"time\")\nfor {\n  TICK()\n  time.Sleep(50 * time.Millisecond)\n}", false, 40, c09rootPoints, false},
 		{"eval-loop", "global TICK\nfor {\n  TICK()\n}", true, 50000, []string{"eval.pre_select", "eval.goroutine_start", "eval.started", "run.enter", "run.locked", "run.ready"}, false},
+		// endless executions without a backward jump: self calls in tail position re-use the frame (returned and discarded form),
+		// in the root VM and in a child VM; a loop made of for-in and of a conditional for
+		{"tailcall-spin", "global TICK\nvar spin\nspin = func(n) {\n  TICK()\n  return spin(n + 1)\n}\nreturn spin(0)", false, 50000, []string{"run.ready"}, false},
+		{"tailcall-discarded-spin", "global TICK\nvar spin\nspin = func(n) {\n  TICK()\n  spin(n + 1)\n}\nreturn spin(0)", false, 50000, []string{"run.ready"}, false},
+		{"child-tailcall-spin", "global (TICK, CALLP)\nvar spin\nspin = func(n) {\n  TICK()\n  return spin(n + 1)\n}\nCALLP(spin, 0)\nreturn 1", false, 50000, []string{"run.ready", "invoke.pre_child_run", "child.run.ready"}, false},
+		{"forin-loop", "global TICK\narr := [1, 2, 3]\nfor {\n  for v in arr {\n    TICK()\n  }\n}", false, 50000, []string{"run.ready"}, false},
+		{"cond-for-loop", "global TICK\nfor x := 0; x >= 0; x++ {\n  TICK()\n}", false, 50000, []string{"run.ready"}, false},
+		{"eval-tailcall-spin", "global TICK\nvar spin\nspin = func(n) {\n  TICK()\n  return spin(n + 1)\n}\nreturn spin(0)", true, 50000, []string{"eval.started", "run.ready"}, false},
 	}
 }
 
@@ -136,6 +144,9 @@ type c09wit struct {
 
 var c09known *ugo.Bytecode
 
+// c09stuck: a run could not be stopped and its goroutine is still spinning; the worker ends its batch early
+var c09stuck atomic.Bool
+
 func c09followup(vm *ugo.VM) string {
 	if c09known == nil {
 		bc, err := ugo.Compile([]byte("param x\nn := 0\nfor i := 0; i < 10; i++ {\n  n += i * x\n}\nreturn n"), ugo.CompilerOptions{})
@@ -159,6 +170,10 @@ func c09modules() *ugo.ModuleMap {
 
 // placement runs one (workload, point, nth, action, ordering) and judges it.
 func (m c09) placement(c *core.Ctx, wl c09wl, point string, nth int, action string, race bool) {
+	if c09stuck.Load() {
+		c.Count("skipped_after_unstoppable_run")
+		return
+	}
 	order := "parked"
 	if race {
 		order = "racing"
@@ -354,18 +369,26 @@ poll:
 			time.Sleep(200 * time.Microsecond)
 		}
 	}
-	select {
-	case <-done:
-	case <-time.After(10 * time.Second):
-		c.Inconclusive("could not stop the run after rescue: " + wl.name + "@" + point)
-		return
-	}
-	adv = counter.Load() - nA
 	wlname := wl.name
 	if wl.prior {
 		wlname += "+prior"
 	}
 	fp := "C09|lost|" + wlname + "|" + point + "|" + strings.TrimRight(action, "25") // abort, abort2, abort5 share a fingerprint
+	select {
+	case <-done:
+	case <-time.After(10 * time.Second):
+		if lost {
+			// judged lost by the iteration counter, and not even thousands of further Aborts stop the script: the run's
+			// goroutine stays behind spinning, so this worker stops exploring after reporting
+			c.Violation(fp, fmt.Sprintf("Abort is lost: %s at %s (occurrence %d, %s) — the script ran %d more iterations and ignored all further Aborts", action, point, nth, order, counter.Load()-nA), wit("lost, unstoppable", counter.Load()-nA))
+			c09stuck.Store(true)
+			return
+		}
+		c.Inconclusive("could not stop the run after rescue: " + wl.name + "@" + point)
+		c09stuck.Store(true)
+		return
+	}
+	adv = counter.Load() - nA
 	if lost {
 		what := "Abort is lost"
 		if action == "cancel" {
@@ -395,6 +418,10 @@ poll:
 }
 
 func (m c09) stress(c *core.Ctx, wl c09wl, spin int) {
+	if c09stuck.Load() {
+		c.Count("skipped_after_unstoppable_run")
+		return
+	}
 	var counter atomic.Int64
 	globals := ugo.Map{"TICK": &ugo.Function{Name: "TICK", Value: func(...ugo.Object) (ugo.Object, error) {
 		counter.Add(1)
@@ -481,7 +508,15 @@ func (m c09) stress(c *core.Ctx, wl c09wl, spin int) {
 		}
 		break
 	}
-	<-done
+	select {
+	case <-done:
+	case <-time.After(10 * time.Second):
+		c09stuck.Store(true)
+		if !lost {
+			c.Inconclusive("stress: run neither progressed nor returned: " + wl.name + "@" + at)
+			return
+		}
+	}
 	if lost {
 		c.Violation("C09|lost|"+wl.name+"|"+at+"|abort", fmt.Sprintf("stress: Abort from 2 goroutines right after point %s was lost", at),
 			c09wit{Workload: wl.name, Point: at, Action: "abort-x2-concurrent", Order: "stress", Why: "lost", Advance: counter.Load() - nA})
@@ -637,7 +672,7 @@ func (m c09) Run(c *core.Ctx) {
 	// stress
 	n := c.Pick(12, 3000)
 	for i := 0; i < n; i++ {
-		wl := wls[c.Rng.Intn(5)]
+		wl := wls[[]int{0, 1, 2, 3, 4, 7, 8, 9}[c.Rng.Intn(8)]]
 		spin := c.Rng.Intn(400)
 		if !c.Begin(func() string { return fmt.Sprintf("stress %s spin=%d", wl.name, spin) }) {
 			continue
